@@ -656,6 +656,7 @@ AllowedBy(p, hs, pre, e) ==
       [] p = "C06" -> Allowed_C06(hs, pre, e)
       [] p = "C07" -> Allowed_C07(hs, pre, e)
       [] p = "C08" -> Allowed_C08(hs, pre, e)
+      [] p = "C09" -> e.ev # "Timeout"            \* every call of a sequential client returns
       [] p = "C10" -> Allowed_C10(hs, pre, e)
       [] p = "C11" -> Allowed_C11(hs, pre, e)
       [] p = "C12" -> Allowed_C12(hs, pre, e)
@@ -672,6 +673,7 @@ NonTrivialBy(p, hs, pre, e) ==
       [] p = "C06" -> NT_C06(hs, pre, e)
       [] p = "C07" -> NT_C07(hs, pre, e)
       [] p = "C08" -> NT_C08(hs, pre, e)
+      [] p = "C09" -> IsOp(e) \/ e.ev = "Timeout"
       [] p = "C10" -> NT_C10(hs, pre, e)
       [] p = "C11" -> NT_C11(hs, pre, e)
       [] p = "C12" -> NT_C12(hs, pre, e)
